@@ -62,6 +62,6 @@ PROPS["C19"] = {
     "parts": [
         opf("paths", ["harness/c19_paths.cpp"], {"cases": 1500000, "maxsize": 12}, {"cases": 15000000, "maxsize": 30, "workers": 16}),
         opf("files", ["harness/c19_files.cpp"], {"cases": 100000, "maxsize": 30}, {"cases": 1000000, "maxsize": 60, "workers": 16}),
-        opf("dirs", ["harness/c19_dirs.cpp"], {"cases": 30000, "maxsize": 20}, {"cases": 300000, "maxsize": 40, "workers": 16}),
+        opf("dirs", ["harness/c19_dirs.cpp"], {"cases": 30000, "maxsize": 20}, {"cases": 300000, "maxsize": 40, "workers": 16}, ldflags=["-Wl,--wrap=mkdir"]),
     ],
 }
